@@ -31,7 +31,11 @@ pub fn count_spaces_after_last_newline(s: &str, i: usize) -> usize {
     );
 
     // Find the start of the line that contains position `i` (the first line has no newline before it)
-    let line_start = s[..i].rfind('\n').map_or(0, |pos| pos + 1);
+    let line_start = s[..i]
+        .char_indices()
+        .rev()
+        .find(|(_, c)| typst_syntax::is_newline(*c))
+        .map_or(0, |(pos, c)| pos + c.len_utf8());
     // Count the number of consecutive spaces at the start of that line
     s[line_start..i].chars().take_while(|&c| c == ' ').count()
 }
